@@ -1,5 +1,6 @@
 //! unitsim — unit-level deterministic simulations (maps, pools, openness, revertible buffer).
 
+pub mod buffersim;
 pub mod mapsim;
 pub mod opensim;
 pub mod poolsim;
@@ -8,7 +9,7 @@ pub mod stubs;
 
 use simcore::{CheckSpec, Part};
 
-pub const PROPERTIES: &[&str] = &["C15", "C27", "C34"];
+pub const PROPERTIES: &[&str] = &["C15", "C21", "C27", "C34"];
 
 pub fn registry(property: &str) -> Option<CheckSpec> {
     match property {
@@ -23,7 +24,7 @@ pub fn registry(property: &str) -> Option<CheckSpec> {
         "C15" => Some(CheckSpec {
             property: "C15",
             level: "exploration",
-            parts: vec![Part::new(poolsim::PoolSim, 2_000_000, 50_000_000)],
+            parts: vec![Part::new(poolsim::PoolSim, 100_000, 1_600_000)],
             assumptions: vec![
                 "the stored total of a pool is observed through its public Borsh encoding (store) / public fields (SDK)".into(),
             ],
@@ -31,9 +32,18 @@ pub fn registry(property: &str) -> Option<CheckSpec> {
         "C27" => Some(CheckSpec {
             property: "C27",
             level: "exploration",
-            parts: vec![Part::new(opensim::OpenSim, 200_000, 4_000_000)],
+            parts: vec![Part::new(opensim::OpenSim, 250_000, 4_000_000)],
             assumptions: vec![
                 "unit part only: the feed price object is driven directly; the chain-level part (reports through the oracle) is checked by the chain engine".into(),
+            ],
+        }),
+        "C21" => Some(CheckSpec {
+            property: "C21",
+            level: "fault_enumeration",
+            parts: vec![Part::new(buffersim::BufferSim, 250_000, 4_000_000)],
+            assumptions: vec![
+                "unit part: the revertible buffer of an in-memory Market account reached through the cfg(gmsol_verif) hook; virtual inventories disabled; RevertibleLiquidityMarket's deferred mint/burn is covered at chain level".into(),
+                "the revision words stored next to a committed item are treated as bookkeeping (they may change when that item is committed)".into(),
             ],
         }),
         _ => None,
